@@ -4,7 +4,7 @@
    the code as it is; likewise ScaleRaises from C02_SCALE = "raises" | "ok"), the harness sets it after determining which design the code under test implements. *)
 EXTENDS Inventory, IOUtils
 Z == <<0, 1>>
-Wt == [a |-> 2, b |-> 3, c |-> 5]
+Wt == [a |-> 2, b |-> 3, c |-> 5, d |-> 7]
 ScaleRaisesEnv == ~("C02_SCALE" \in DOMAIN IOEnv /\ IOEnv.C02_SCALE = "ok")     \* default: the code as it is
 LeafVolCutEnv == "C02_LEAFVOL" \in DOMAIN IOEnv /\ IOEnv.C02_LEAFVOL = "cut"
 
@@ -13,10 +13,10 @@ TBlkParent == <<4, 4, 4, 5, 6>>
 TBlkArea == <<1, 2, 3>>
 TBlkHeight == (4 :> 2)
 TBlkSym    == (4 :> 1)
-TBlkN0 == << [a |-> <<1, 1>>, b |-> <<2, 1>>, c |-> Z],
-            [a |-> <<2, 1>>, b |-> Z,        c |-> <<1, 1>>],
-            [a |-> Z,        b |-> Z,        c |-> <<3, 1>>] >>
-TBlkH0 == << {"a", "b"}, {"a", "c"}, {"c"} >>
+TBlkN0 == << [a |-> <<1, 1>>, b |-> <<2, 1>>, c |-> Z, d |-> <<1, 2>>],
+            [a |-> <<2, 1>>, b |-> Z,        c |-> <<1, 1>>, d |-> Z],
+            [a |-> Z,        b |-> Z,        c |-> <<3, 1>>, d |-> Z] >>
+TBlkH0 == << {"a", "b", "d"}, {"a", "c"}, {"c"} >>
 TBlkTargets == {1, 3, 4}
 TBlkTargetsAll == {1, 2, 3, 4, 5, 6}
 TBlkTargetsUp == {3, 4, 5, 6}
@@ -28,13 +28,13 @@ TCoreArea   == <<1, 2, 2, 1, 2, 2>>
 TCoreHeight == (7 :> 1) @@ (8 :> 2) @@ (9 :> 3)
 TCoreSym    == (7 :> 3) @@ (8 :> 3) @@ (9 :> 1)
 \* (block 8 does not hold a, assembly 11 does not hold c: edits above them are distributed over a proper subset of the children)
-TCoreN0 == << [a |-> <<1, 1>>, b |-> <<2, 1>>, c |-> Z],
-             [a |-> <<2, 1>>, b |-> Z,        c |-> <<1, 1>>],
-             [a |-> Z,        b |-> <<1, 1>>, c |-> Z],
-             [a |-> Z,        b |-> Z,        c |-> <<2, 1>>],
-             [a |-> <<3, 1>>, b |-> <<1, 1>>, c |-> Z],
-             [a |-> Z,        b |-> <<2, 1>>, c |-> Z] >>
-TCoreH0 == << {"a", "b"}, {"a", "c"}, {"b"}, {"c"}, {"a", "b"}, {"b"} >>
+TCoreN0 == << [a |-> <<1, 1>>, b |-> <<2, 1>>, c |-> Z, d |-> <<1, 2>>],
+             [a |-> <<2, 1>>, b |-> Z,        c |-> <<1, 1>>, d |-> Z],
+             [a |-> Z,        b |-> <<1, 1>>, c |-> Z, d |-> Z],
+             [a |-> Z,        b |-> Z,        c |-> <<2, 1>>, d |-> Z],
+             [a |-> <<3, 1>>, b |-> <<1, 1>>, c |-> Z, d |-> <<1, 1>>],
+             [a |-> Z,        b |-> <<2, 1>>, c |-> Z, d |-> Z] >>
+TCoreH0 == << {"a", "b", "d"}, {"a", "c"}, {"b"}, {"c"}, {"a", "b", "d"}, {"b"} >>
 TCoreTargets == {1, 5, 7, 10, 12}
 TCoreTargetsQ == {1, 7, 10, 12}
 TCoreTargetsProbe == {1, 5, 7}
@@ -50,6 +50,20 @@ TEdgeN0 == TCoreN0
 TEdgeH0 == TCoreH0
 TEdgeTargets == {3, 8, 12, 15}
 TEdgeTargetsAll == 1..15
+
+\* ---- one block with a closed fuel/clad gap: fuel (area 30), a Void gap whose hot area is NEGATIVE (-1: the hot slug overlaps the
+\*      clad's inner diameter; legal for Void, Component._checkNegativeArea), clad (6), coolant (5); block 5, assembly 6, core 7
+TGapParent == <<5, 5, 5, 5, 6, 7>>
+TGapArea   == <<30, -1, 6, 5>>
+TGapHeight == (5 :> 1)
+TGapSym    == (5 :> 1)
+TGapN0 == << [a |-> <<1, 1>>, b |-> <<2, 1>>, c |-> Z,        d |-> <<1, 2>>],
+            [a |-> Z,        b |-> Z,        c |-> Z,        d |-> Z],
+            [a |-> Z,        b |-> <<1, 1>>, c |-> <<1, 1>>, d |-> Z],
+            [a |-> Z,        b |-> Z,        c |-> <<2, 1>>, d |-> Z] >>
+TGapH0 == << {"a", "b", "d"}, {}, {"b", "c"}, {"c"} >>
+TGapTargetsAll == {1, 3, 4, 5, 6, 7}        \* not the gap itself
+TGapHAll == {5}
 
 \* ---- parameter domains
 ValsQ   == {Z, <<1, 1>>, <<3, 2>>}
@@ -71,6 +85,16 @@ SetMapsQ == { ("a" :> <<6, 1>>) @@ ("c" :> <<1, 1>>),
               ("b" :> <<5, 2>>) }
 AddMapsT == AddMapsQ \cup { ("a" :> <<1, 1>>) @@ ("b" :> <<1, 1>>) @@ ("c" :> <<-1, 2>>), ("c" :> <<-1, 1>>) }
 SetMapsT == SetMapsQ \cup { ("a" :> <<2, 1>>) @@ ("b" :> <<3, 1>>) @@ ("c" :> <<1, 2>>) }
+AdjSetsQ == { Nuc, {"a", "b"}, {"c"}, {} }          \* all, proper subsets (one of them a nuclide some blocks do not hold), empty
+AdjSetsT == AdjSetsQ \cup { {"a"}, {"b", "c", "d"} }
+AdjSetsG == { {"a", "b"} }
+EnrFracsQ == { <<1, 5>>, <<1, 2>> }
+EnrFracsT == EnrFracsQ \cup { <<1, 20>> }
+AdjMFsQ == { [adj |-> "c", hold |-> "E", v |-> <<1, 10>>],
+             [adj |-> "c", hold |-> "",  v |-> <<1, 4>>],
+             [adj |-> "E", hold |-> "",  v |-> <<1, 2>>],
+             [adj |-> "a", hold |-> "b", v |-> <<1, 5>>] }
+AdjMFsT == AdjMFsQ \cup { [adj |-> "d", hold |-> "c", v |-> <<1, 10>>], [adj |-> "E", hold |-> "c", v |-> <<3, 4>>] }
 HDom123 == {1, 2, 3}
 None == {}
 \* the narrow three-edits-deep emission (edit above a block ; change the block's height ; edit above it again)
@@ -103,11 +127,11 @@ InitB == Init /\ depth = 1
 MaxL  == IF "C02_MAXLEVEL" \in DOMAIN IOEnv THEN atoi(IOEnv.C02_MAXLEVEL) ELSE MaxLevel
 Bound == depth <= MaxL
 G == depth < MaxL /\ depth' = depth + 1
-\* per-action counters (TLC registers 101..112; exact with one worker): the harness shows non-vacuity with them, because TLC's own
+\* per-action counters (TLC registers 101..115; exact with one worker): the harness shows non-vacuity with them, because TLC's own
 \* coverage instrumentation is ten times more expensive than the model checking itself here
 Cnt(k) == TLCSet(k, TLCGet(k) + 1)
-ASSUME \A k \in 101..112 : TLCSet(k, 0)
-CountReport == PrintT(ToJson([counts |-> [i \in 1..12 |-> TLCGet(100 + i)]]))
+ASSUME \A k \in 101..115 : TLCSet(k, 0)
+CountReport == PrintT(ToJson([counts |-> [i \in 1..15 |-> TLCGet(100 + i)]]))
 BSetN == G /\ DoSetN /\ Cnt(101)
 BUpdateN == G /\ DoUpdateN /\ Cnt(102)
 BSetNs == G /\ DoSetNs /\ Cnt(103)
@@ -120,8 +144,11 @@ BSetMassFracs == G /\ DoSetMassFracs /\ Cnt(109)
 BAddMasses == G /\ DoAddMasses /\ Cnt(110)
 BSetMasses == G /\ DoSetMasses /\ Cnt(111)
 BSetHeight == G /\ DoSetHeight /\ Cnt(112)
+BAdjustDensity == G /\ DoAdjustDensity /\ Cnt(113)
+BAdjustEnrich == G /\ DoAdjustEnrich /\ Cnt(114)
+BAdjustMF == G /\ DoAdjustMF /\ Cnt(115)
 NextB == BSetN \/ BUpdateN \/ BSetNs \/ BScale \/ BClear \/ BAddMass \/ BRemoveMass \/ BSetMass \/ BSetMassFracs
-         \/ BAddMasses \/ BSetMasses \/ BSetHeight
+         \/ BAddMasses \/ BSetMasses \/ BSetHeight \/ BAdjustDensity \/ BAdjustEnrich \/ BAdjustMF
 View  == <<vars, depth>>
 Emit  == PrintT(ToJson([lvl |-> depth, from |-> Vars, act |-> act', to |-> Vars', err |-> err']))
 EmitState == PrintT(ToJson([st |-> Vars, obs |-> Obs]))
